@@ -140,7 +140,10 @@ class Portfolio(IncrementalTrackingSolver):
         # instead of in one shot!)
         self._close_existing()
 
-        formula = self.environment.formula_manager.And(self.assertions)
+        # The solvers decide the assertions together with the
+        # assumptions of this call
+        formula = self.environment.formula_manager.And(
+            list(self.assertions) + list(assumptions or []))
         _debug("Creating Queue and Pipe")
         signaling_queue: Queue = Queue()
         child_ctrl_pipe, my_ctrl_pipe = Pipe()
